@@ -266,11 +266,10 @@ func (g *G) forIn(d int) *Stmt {
 
 // forInOperand is an operand for a comparison inside a for-in body: it must not create an
 // element of any array (whether an element inserted during the walk is visited is unspecified)
-// and must not call anything.
+// and must not call anything, nor read a variable the body changes.
 func (g *G) forInOperand() *x.E {
-	if g.chance(50) {
-		return x.Var(g.scalarName())
-	}
+	// (not a variable either: the body's accumulator may be that variable, which would make the
+	// result depend on the order of the walk)
 	return x.Num(float64(g.R.Intn(6)))
 }
 
